@@ -139,3 +139,68 @@ theorem sizeCount_map_lab (ls : List Nat) (cfg : Config) (s : Nat) :
   simp
 
 end C16
+
+namespace C16
+
+/-! ## the generated sequence is a stream: asking for fewer samples gives a prefix -/
+
+theorem yieldsFrom_take {cfg : Config} {thins : List (List StepDraw)} {ys : List Config} (k : Nat)
+    (h : yieldsFrom cfg thins = some ys) : yieldsFrom cfg (thins.take k) = some (ys.take k) := by
+  induction thins generalizing cfg ys k with
+  | nil => simp only [yieldsFrom, Option.some.injEq] at h; subst h; simp [yieldsFrom]
+  | cons ds rest ih =>
+    cases k with
+    | zero => simp [yieldsFrom]
+    | succ k =>
+      simp only [yieldsFrom] at h
+      cases hs : mcmcSteps cfg ds with
+      | none => simp [hs] at h
+      | some c =>
+        simp only [hs, Option.bind_some] at h
+        cases hr : yieldsFrom c rest with
+        | none => simp [hr] at h
+        | some r =>
+          simp only [hr, Option.map_some, Option.some.injEq] at h
+          subst h
+          simp [yieldsFrom, hs, ih k hr]
+
+theorem mcmcRoutine_take {cfg fixed : Config} {burn : List StepDraw} {thins : List (List StepDraw)}
+    {ys : List Config} (k : Nat) (h : mcmcRoutine cfg fixed burn thins = some ys) :
+    mcmcRoutine cfg fixed burn (thins.take k) = some (ys.take k) := by
+  unfold mcmcRoutine at h ⊢
+  cases hb : mcmcSteps cfg burn with
+  | none => simp [hb] at h
+  | some c0 =>
+    simp only [hb, Option.bind_some] at h ⊢
+    cases hy : yieldsFrom c0 thins with
+    | none => simp [hy] at h
+    | some zs =>
+      simp only [hy, Option.map_some, Option.some.injEq] at h
+      subst h
+      simp [yieldsFrom_take k hy, List.map_take]
+
+theorem outputsOf_take {ys : List Config} {ws : List (List Nat)} {labels : Option (List Nat)}
+    {outs : List (List (Hye × Nat))} (k : Nat) (h : outputsOf ys ws labels = some outs) :
+    outputsOf (ys.take k) ws labels = some (outs.take k) := by
+  induction ys generalizing ws outs k with
+  | nil => simp only [outputsOf, Option.some.injEq] at h; subst h; simp [outputsOf]
+  | cons y ys ih =>
+    cases k with
+    | zero => simp [outputsOf]
+    | succ k =>
+      cases ws with
+      | nil => simp [outputsOf] at h
+      | cons w ws =>
+        simp only [outputsOf] at h
+        cases ho : outputStage y w labels with
+        | none => simp [ho] at h
+        | some o =>
+          simp only [ho, Option.bind_some] at h
+          cases hr : outputsOf ys ws labels with
+          | none => simp [hr] at h
+          | some r =>
+            simp only [hr, Option.map_some, Option.some.injEq] at h
+            subst h
+            simp [outputsOf, ho, ih k hr]
+
+end C16
